@@ -305,6 +305,37 @@ def call_ext(I: Any, name: str, args: List[Term], kwargs: Dict[str, Term], st: A
                 acc = I.call(args[0], [acc, it], {}, st, ctx, node)
             return acc
         return I.external_call(name, args, kwargs, st, ctx, node, awaited, opaque=True)
+    if name == "builtins.next" and 1 <= len(args) <= 2 and not kwargs:
+        src = args[0]
+        default = args[1] if len(args) == 2 else None
+        if src[0] == "condlist":
+            from .interp import ite, mkcmp
+            pairs = list(src[1])
+            # first match of `x == k_i` over distinct constant keys: the table lookup a dict of the same pairs gives
+            eqs = [cn for cn, _ in pairs]
+            if len(pairs) >= 2 and all(isinstance(cn, tuple) and cn[:2] == ("cmp", "==") and cn[2] == eqs[0][2] and (is_c(cn[3]) or (T.is_seq(cn[3]) and all(a[0] == "L" for a in cn[3][2])) or cn[3][0] == "enum") for cn in eqs) and len({cn[3] for cn in eqs}) == len(eqs):
+                x = eqs[0][2]
+                table = tuple((cn[3], v) for cn, v in pairs)
+                miss = key_missing_cond(I, x, tuple(k for k, _ in table))
+                if default is None:
+                    st.may_raise("StopIteration", miss, where)
+                    return ("lookup", table, x)
+                return ite_pos(miss, default, ("lookup", table, x))
+            if default is None:
+                st.may_raise("StopIteration", conj_all([neg_(cn) for cn, _ in pairs]), where)
+            val = default if default is not None else top("next() of an exhausted iterator")
+            for cn, v in reversed(pairs):
+                val = ite(cn, v, val)
+            return val
+        items = I.iter_items(src, st, ctx, node)
+        if items is not None:
+            if items:
+                return items[0]
+            if default is not None:
+                return default
+            st.may_raise("StopIteration", c(True), where)
+            return top("next() of an empty iterator")
+        return I.external_call(name, args, kwargs, st, ctx, node, awaited, opaque=True)
     if name == "builtins.reversed" and len(args) == 1 and not kwargs:
         items = I.iter_items(args[0], st, ctx, node)
         if items is not None:
@@ -910,6 +941,16 @@ def key_missing_cond(I: Any, key: Term, keys: Tuple[Term, ...]) -> Term:
     return ("cmp", "not in", key, ("tuple", keys))
 
 
+def conj_all(parts: List[Term]) -> Term:
+    from .interp import conj
+    return conj(parts)
+
+
+def neg_(cnd: Term) -> Term:
+    from .interp import neg
+    return neg(cnd)
+
+
 def ite_pos(cond: Term, a: Term, b: Term) -> Term:
     """ite with a positive test: ite(x != k, a, b) is written ite(x == k, b, a)."""
     from .interp import ite, neg
@@ -1261,6 +1302,20 @@ def call_method(I: Any, recv: Term, name: str, args: List[Term], kwargs: Dict[st
     where = ctx.loc(node)
     from .interp import HeapObj
 
+    if recv[0] == "ite" and len(recv) == 4 and name in ("format", "decode", "encode", "hex", "upper", "lower", "strip", "rstrip", "lstrip", "ljust", "rjust", "zfill", "join", "split", "get"):
+        # a pure method of a two-way choice: the choice of the results (branches the path already decided are dropped)
+        from .interp import decided_by, ite
+        d = decided_by(st.pc, recv[1])
+        if d is True:
+            return call_method(I, recv[2], name, args, kwargs, st, ctx, node, awaited)
+        if d is False:
+            return call_method(I, recv[3], name, args, kwargs, st, ctx, node, awaited)
+        ra = call_method(I, recv[2], name, args, kwargs, st, ctx, node, awaited)
+        rb = call_method(I, recv[3], name, args, kwargs, st, ctx, node, awaited)
+        sa_, sb_ = (T.to_seq(ra) if _textlike(ra) else None), (T.to_seq(rb) if _textlike(rb) else None)
+        if sa_ is not None and sb_ is not None and sa_[1] == sb_[1]:
+            return ("seq", sa_[1], (("alt", recv[1], sa_, sb_),))
+        return ite(recv[1], ra, rb)
     # --- super().__post_init__() / super().__init__()
     if recv[0] == "super":
         ci, selfv = recv[1], recv[2]
